@@ -15,10 +15,11 @@ From NoKV Require Export Base.Sched Model.SchedLib Model.PdAlloc Spec.PdAllocSpe
 Export ListNotations.
 Local Open Scope N_scope.
 
-Record step := { s_t : nat; s_ran : bool; s_tag : N; s_ids : N; s_tso : N; s_cid : N; s_cts : N; s_resp : N }.
+Record step := { s_force : bool; s_t : nat; s_ran : bool; s_tag : N; s_ids : N; s_tso : N; s_cid : N; s_cts : N; s_resp : N }.
 Record crash := { k_ids : N; k_tso : N; k_reqs : list req; k_ids0 : N; k_tso0 : N;
                   k_firsts : list N; k_cid : N; k_cts : N }.
-Record case := { c_ids : N; c_tso : N; c_reqs : list req; c_steps : list step; c_crash : crash }.
+Record case := { c_ids : N; c_tso : N; c_reqs : list req; c_steps : list step;
+                 c_images : list (nat * N * N); c_crash : crash }.
 
 Definition pc_tag (p : pc) : N :=
   match p with PReserve => 0 | PLock _ => 1 | PLoadId _ => 2 | PLoadTs _ _ => 3 | PSave _ _ _ => 4 | PDone _ => 5 end.
@@ -26,20 +27,47 @@ Definition pc_resp (p : pc) : N := match p with PDone f => f | _ => 0 end.
 
 Definition is_some {A} (o : option A) : bool := match o with Some _ => true | None => false end.
 
-Fixpoint agree (g : gstate) (steps : list step) : bool * gstate :=
+(** A forced step ([s_force]): the harness granted thread [t] at the [persistMu.Lock] yield point
+    although the mutex was held; the real [Lock] blocks (observed tag 6) and the model's thread stays
+    where it is, disabled.  [waiting] remembers that thread: as soon as a later step releases the mutex,
+    the real thread acquires it and runs on to its next yield point, i.e. the model performs [Th w]
+    right after that step.  [cks] collects the checkpoint after every step (for the crash images). *)
+Fixpoint agree (g : gstate) (waiting : option nat) (steps : list step) : bool * gstate * list (N * N) :=
   match steps with
-  | [] => (true, g)
+  | [] => (true, g, [])
   | s :: r =>
-      let o := tstep true g (Th (s_t s)) in
-      let g' := match o with Some g' => g' | None => g end in
+      let t := s_t s in
+      let is_waiting := match waiting with Some w => Nat.eqb w t | None => false end in
+      let '(ran, g', waiting', blocked) :=
+        if s_force s then
+          match waiting, nth_error (g_threads g) t with
+          | None, Some th =>
+              match th_pc th with
+              | PLock _ => if g_mu g then (true, g, Some t, true) else (false, g, None, false)
+              | _ => (false, g, None, false)
+              end
+          | _, _ => (false, g, None, false)
+          end
+        else if is_waiting then (false, g, waiting, true)
+        else
+          let o := tstep true g (Th t) in
+          let g1 := match o with Some g1 => g1 | None => g end in
+          match waiting with
+          | Some w => if g_mu g1 then (is_some o, g1, waiting, false)
+                      else match tstep true g1 (Th w) with
+                           | Some g2 => (is_some o, g2, None, false)
+                           | None => (is_some o, g1, waiting, false)
+                           end
+          | None => (is_some o, g1, None, false)
+          end in
       let ok :=
-        Bool.eqb (is_some o) (s_ran s) &&
-        match nth_error (g_threads g') (s_t s) with
-        | Some th => (pc_tag (th_pc th) =? s_tag s) && (pc_resp (th_pc th) =? s_resp s)
+        Bool.eqb ran (s_ran s) &&
+        match nth_error (g_threads g') t with
+        | Some th => ((if blocked then 6 else pc_tag (th_pc th)) =? s_tag s) && (pc_resp (th_pc th) =? s_resp s)
         | None => false
         end &&
         (g_ids g' =? s_ids s) && (g_tso g' =? s_tso s) && (g_ck_id g' =? s_cid s) && (g_ck_ts g' =? s_cts s) in
-      let '(ok', gf) := agree g' r in (ok && ok', gf)
+      let '(ok', gf, cks) := agree g' waiting' r in (ok && ok', gf, (g_ck_id g', g_ck_ts g') :: cks)
   end.
 
 (** run thread [t] alone to completion *)
@@ -76,8 +104,19 @@ Fixpoint zip_iv (reqs : list req) (firsts : list N) : list iv :=
   | _, _ => []
   end.
 
+(** crash image taken during step [k+1], before one of its file operations: the model's checkpoint
+    is still the one after [k] steps (the file is replaced atomically) *)
+Definition image_model_ok (cks : list (N * N)) (im : nat * N * N) : bool :=
+  let '(k, id0, ts0) := im in
+  let '(ci, ct) := match k with O => (0, 0) | S k' => nth k' cks (0, 0) end in
+  (counter_of_start (resolve 1 ci) =? id0) && (counter_of_start (resolve 1 ct) =? ts0).
+
+(** oracle: everything responded in the first [k] steps is below what the restarted service hands out *)
+Definition image_spec_ok (tr : list ostep) (im : nat * N * N) : bool :=
+  let '(k, id0, ts0) := im in covered_b id0 ts0 (seen_after [] (firstn k tr)).
+
 Definition check (c : case) : verdict :=
-  let '(ok1, g1) := agree (init (c_ids c) (c_tso c) (c_reqs c)) (c_steps c) in
+  let '(ok1, g1, cks) := agree (init (c_ids c) (c_tso c) (c_reqs c)) None (c_steps c) in
   let k := c_crash c in
   let ok2 :=
     match tstep true g1 (Crash (k_ids k) (k_tso k) (k_reqs k)) with
@@ -89,14 +128,18 @@ Definition check (c : case) : verdict :=
         ok && (g_ck_id g3 =? k_cid k) && (g_ck_ts g3 =? k_cts k)
     end in
   let tr := map (ostep_of (c_reqs c)) (c_steps c) in
-  mk_verdict (negb (ok1 && ok2))
-             (negb (trace_ok_b [] tr && restart_ok_b (seen_after [] tr) (zip_iv (k_reqs k) (k_firsts k))))
+  mk_verdict (negb (ok1 && ok2 && forallb (image_model_ok cks) (c_images c)))
+             (negb (trace_ok_b [] tr && restart_ok_b (seen_after [] tr) (zip_iv (k_reqs k) (k_firsts k)) &&
+                    forallb (image_spec_ok tr) (c_images c)))
              0.
 
 Definition R (k c : N) : req := {| r_kind := if k =? 0 then KId else KTs; r_count := c |}.
 Definition St (t : N) (ran : bool) (tag ids tso cid cts resp : N) : step :=
-  {| s_t := N.to_nat t; s_ran := ran; s_tag := tag; s_ids := ids; s_tso := tso; s_cid := cid; s_cts := cts; s_resp := resp |}.
+  {| s_force := false; s_t := N.to_nat t; s_ran := ran; s_tag := tag; s_ids := ids; s_tso := tso; s_cid := cid; s_cts := cts; s_resp := resp |}.
+Definition Sf (t : N) (ran : bool) (tag ids tso cid cts resp : N) : step :=
+  {| s_force := true; s_t := N.to_nat t; s_ran := ran; s_tag := tag; s_ids := ids; s_tso := tso; s_cid := cid; s_cts := cts; s_resp := resp |}.
+Definition Im (k id0 ts0 : N) : nat * N * N := (N.to_nat k, id0, ts0).
 Definition Cr (a b : N) (reqs : list req) (i0 t0 : N) (firsts : list N) (cid cts : N) : crash :=
   {| k_ids := a; k_tso := b; k_reqs := reqs; k_ids0 := i0; k_tso0 := t0; k_firsts := firsts; k_cid := cid; k_cts := cts |}.
-Definition Cs (a b : N) (reqs : list req) (steps : list step) (k : crash) : case :=
-  {| c_ids := a; c_tso := b; c_reqs := reqs; c_steps := steps; c_crash := k |}.
+Definition Cs (a b : N) (reqs : list req) (steps : list step) (ims : list (nat * N * N)) (k : crash) : case :=
+  {| c_ids := a; c_tso := b; c_reqs := reqs; c_steps := steps; c_images := ims; c_crash := k |}.
